@@ -9,6 +9,8 @@ import (
 	apiv1 "github.com/attestantio/go-eth2-client/api/v1"
 	"github.com/attestantio/go-eth2-client/spec/phase0"
 	"github.com/attestantio/vouch/internal/vnd"
+	nullmetrics "github.com/attestantio/vouch/services/metrics/null"
+	"github.com/rs/zerolog"
 )
 
 type c15Submitter struct {
@@ -24,12 +26,23 @@ func (s *c15Submitter) SubmitSyncCommitteeSubscriptions(_ context.Context, subs 
 	return nil
 }
 
+// c15New builds the subscriber the way main does: through New.
+func c15New(sub *c15Submitter) *Service {
+	s, err := New(context.Background(),
+		WithLogLevel(zerolog.Disabled),
+		WithMonitor(&nullmetrics.Service{}),
+		WithSyncCommitteeSubmitter(sub),
+	)
+	vnd.Assert(err == nil && s != nil, "C15.new.accepted")
+	return s
+}
+
 // VerifC15_Subscribe: the sync committee subscription of a period: one entry
 // per member duty with that validator, its committee positions and the given
 // end epoch; nothing is sent without duties; a submission failure is reported.
 func VerifC15_Subscribe() {
 	sub := &c15Submitter{fail: vnd.Bool("submit.fail")}
-	s := &Service{submitter: sub}
+	s := c15New(sub)
 	end := phase0.Epoch(vnd.U64("end-epoch"))
 	n := vnd.IntRange("duties", 0, 3)
 	var duties []*apiv1.SyncCommitteeDuty
